@@ -769,6 +769,23 @@ func (s *c20Sess) run(nMut int) {
 	s.H = jsonField(r.Body, "child")
 	s.base = w.Snapshot()
 	delete(s.base, "repo/info")
+	// every read of the snapshot is a well-formed request: none may be answered with a recovered panic
+	var pk []string
+	for k := range s.base {
+		pk = append(pk, k)
+	}
+	sort.Strings(pk)
+	for _, k := range pk {
+		if v := s.base[k]; strings.HasPrefix(v, "500 ") && strings.Contains(v, "Panic detected") {
+			ep := k
+			if i := strings.Index(ep, ":"); i >= 0 {
+				ep = ep[i+1:]
+			}
+			c.Report("O", "C20 panic-recovered well-formed-read "+c03Sig(k), "a well-formed read request of the workload was answered with a recovered panic (HTTP 500)",
+				fmt.Sprintf("GET %s -> %s\nhistory:\n  %s", k, v, strings.Join(w.hist, "\n  ")))
+			break
+		}
+	}
 	c.Count(fmt.Sprintf("endpoints in catalogue: %d", len(eps)))
 
 	for _, ep := range eps {
